@@ -26,7 +26,7 @@ DEFAULT_PROFILE = dict(
     subscript_whole_array_results=True, raise_=True, nested_calls=True,
     persistent_arrays=True, name_pool="plain", zero_trip=True, negative_consts=True,
     dead_code=True, cond_in_call_args=True, bare_power=True, ne_operator=True,
-    pow_of_pow=True, loop_bound_vars=True, fresh_names=False, lookups=False, complex_vars=False, assign_all_state=False, time_advance=True, force_phases=None, extra_kinds=(), zero_arg_calls=True, builtin_set=None, yield_uvec_only=False, matmul_only=False, yield_call_free=False, minmax_loop_counter=True, builtin_kwargs=True, uvfn_boost=False, kw_reverse=True, triangular=True, recall=True, int_reassign=True, acc_loops=True, guarded_partial=True, split_calls=True, dt_change=True, surfaces=True, loop_vars=None, float_int_consts=True, reuse_ids=False, call_in_bounds=False,
+    pow_of_pow=True, loop_bound_vars=True, fresh_names=False, lookups=False, complex_vars=False, assign_all_state=False, time_advance=True, force_phases=None, extra_kinds=(), zero_arg_calls=True, builtin_set=None, yield_uvec_only=False, matmul_only=False, yield_call_free=False, minmax_loop_counter=True, builtin_kwargs=True, uvfn_boost=False, kw_reverse=True, triangular=True, recall=True, int_reassign=True, acc_loops=True, guarded_partial=True, split_calls=True, dt_change=True, surfaces=True, loop_vars=None, float_int_consts=True, reuse_ids=False, call_in_bounds=False, array_recreate=True,
     real_temps=None, uvec_temps=None, arr_temps=None, flag_temps=None, int_temps=None,
 )
 
@@ -600,10 +600,22 @@ class Gen:
             return []
         pers = [n for n in P_ARR if isinstance(self.types.get(n), list) or False]
         cands = [n for n in self.ARR_TEMPS if n not in self.types]
+        again = [n for n in self.ARR_TEMPS if isinstance(self.defined.get(n), list) and self.defined[n][0] == "arr"]
+        recreate = None
+        if again and force_len is None and self.p["array_recreate"] and (not cands or self.chance(25)):
+            # array() once more on a variable that already holds an array, with another length
+            recreate = self.choice(again)
+            cands = [recreate]
+            self.features.add("array_recreate")
         if not cands:
             return []
         name = self.choice(cands)
         r = self.int_expr(1, 6) if self.chance(40) else self.int_expr(1, 4)
+        if recreate is not None:
+            old_n = self.defined[recreate][1]
+            r = self.int_expr(old_n + 1, 6) if old_n < 6 and self.chance(60) else self.int_expr(1, max(old_n - 1, 1))
+            if r is None or r[1] == old_n:
+                return []
         if self.p["matmul"] and self.chance(20):
             r = (C(6), 6)           # 2x3 / 3x2 matrices for transpose
         if force_len is not None:
@@ -613,6 +625,7 @@ class Gen:
         nt, n = r
         ops = [["call", [name], "<builtin>array", [nt], {}]]
         self.lbound1.discard(name)
+        self.defined.pop(name, None)        # (a re-created array holds nothing readable until its loop has run)
         typ = ["arr", n]
         # full initialisation loop a[i] <- expr(i)
         lv = self.choice(self.LV)
